@@ -16,7 +16,7 @@ func init() {
 	props["C01"] = genC01
 }
 
-// input: (srcView priorView merge srcKind cap differ notify)
+// input: (srcView priorView merge srcKind cap differ notify unpriv [collision])
 //
 //	srcKind 0 = synthetic in-memory FS, 1 = on-disk source through fsutil.NewFS
 //	differ  0 = DiffMetadata, 1 = DiffNone
@@ -402,10 +402,59 @@ func genC01(g *Gen) {
 			setOwner(prior, unprivID)
 			cls += "+unpriv"
 		}
-		in := L(ViewSx(src), ViewSx(prior), Bool(merge), NI(srcKind), NI(Pick(r, []int{0, 1, 32, 64})), NI(0), Bool(r.Chance(30)), Bool(unpriv))
-		nontriv := prior != nil && len(WalkEntries(prior)) >= 2
+		coll := c01Collision(src, prior)
+		if coll && !merge {
+			cls = "excluded-identity-collision(" + cls + ")"
+		}
+		in := L(ViewSx(src), ViewSx(prior), Bool(merge), NI(srcKind), NI(Pick(r, []int{0, 1, 32, 64})), NI(0), Bool(r.Chance(30)), Bool(unpriv), Bool(coll))
+		nontriv := prior != nil && len(WalkEntries(prior)) >= 2 && (merge || !coll)
 		g.Emit(0x0101, in, nontriv, cls)
 	}
+}
+
+// c01Collision mirrors Converge.identity_faithful (the hypothesis of C01/C02 in dirty mode): true
+// iff some regular file of the source has an entry at the same path of the prior destination
+// with the same identity key (mode, uid, gid, device numbers, link name, size, mtime) and
+// DIFFERENT bytes.  Such cases are excluded by hypothesis: the generator counts them in a class
+// of their own and passes the flag to the glue, which cross-checks it against its own decision.
+func c01Collision(src, prior []*MNode) bool {
+	type ent struct {
+		st *types.Stat
+		c  []byte
+	}
+	flat := func(roots []*MNode) map[string]ent {
+		out := map[string]ent{}
+		var rec func(dir string, ns []*MNode)
+		rec = func(dir string, ns []*MNode) {
+			for _, n := range ns {
+				p := n.Name
+				if dir != "" {
+					p = dir + "/" + n.Name
+				}
+				out[p] = ent{n.Stat, n.Content}
+				rec(p, n.Kids)
+			}
+		}
+		rec("", roots)
+		return out
+	}
+	pm := flat(prior)
+	for p, e := range flat(src) {
+		m := os.FileMode(e.st.Mode)
+		if m&(os.ModeDir|os.ModeSymlink|os.ModeNamedPipe|os.ModeSocket|os.ModeDevice) != 0 {
+			continue
+		}
+		a, ok := pm[p]
+		if !ok {
+			continue
+		}
+		if a.st.Mode == e.st.Mode && a.st.Uid == e.st.Uid && a.st.Gid == e.st.Gid &&
+			a.st.Devmajor == e.st.Devmajor && a.st.Devminor == e.st.Devminor && a.st.Linkname == e.st.Linkname &&
+			a.st.Size == e.st.Size && a.st.ModTime == e.st.ModTime && string(a.c) != string(e.c) {
+			return true
+		}
+	}
+	return false
 }
 
 func setOwner(ns []*MNode, id uint32) {
